@@ -639,6 +639,10 @@ enum Kind {
     LoopAtom, // loop over an atom or sigma
     Pattern, // concatenation of the above
     Other,
+    /// a union of hundreds of words (or one operator on top of it): never picked as an operand by later steps,
+    /// because derivatives of further operators over it build unions of tens of thousands of operands, on which the
+    /// crate's own constructors are quadratic (minutes per call)
+    Wide,
 }
 
 pub struct Gen<'a> {
@@ -667,11 +671,14 @@ impl<'a> Gen<'a> {
 
     fn pick(&mut self) -> usize {
         let n = self.n();
-        if self.rng.chance(1, 2) {
-            n - 1 - self.rng.usize(n.min(4))
-        } else {
-            self.rng.usize(n)
+        for _ in 0..8 {
+            let i = if self.rng.chance(1, 2) { n - 1 - self.rng.usize(n.min(4)) } else { self.rng.usize(n) };
+            if self.kinds[i] != Kind::Wide {
+                return i;
+            }
         }
+        // (the first three results of a program are atoms)
+        self.rng.usize(3.min(n))
     }
 
     fn pick_kind(&mut self, ok: &[Kind]) -> Option<usize> {
@@ -1035,17 +1042,17 @@ impl<'a> Gen<'a> {
         // expensive for the crate and the reference alike, without adding a size threshold)
         let b2 = 0x5000 + self.rng.below(2) as u32 * 0x8000;
         let op = Op::Wide { n, b1, s1, b2, s2, extra: self.rng.chance(2, 3), tree: self.rng.chance(1, 4), ord: self.rng.below(3) as u8 };
-        let u = self.push(op, Kind::Other);
+        let u = self.push(op, Kind::Wide);
         match self.rng.below(5) {
             0 => {
-                self.push(Op::Star(u), Kind::Other);
+                self.push(Op::Star(u), Kind::Wide);
             }
             1 => {
-                self.push(Op::Comp(u), Kind::Other);
+                self.push(Op::Comp(u), Kind::Wide);
             }
             2 => {
                 let j = self.pick();
-                self.push(Op::Inter(u, j), Kind::Other);
+                self.push(Op::Inter(u, j), Kind::Wide);
             }
             _ => {}
         }
